@@ -133,6 +133,12 @@ class DiskGen(Gen):
             for _ in range(20):
                 tup = tuple(self.rng.randint(1, 3) if t.upper() == 'INTEGER' else 'v%d' % self.rng.randint(1, 3)
                             for _, t in comp)
+                mixed = [h for h in have if None not in h and len(set(h)) > 1]
+                if mixed and self.rng.random() < 0.5:
+                    # the same values in another order than an existing key
+                    tup = list(self.rng.choice(sorted(mixed)))
+                    self.rng.shuffle(tup)
+                    tup = tuple(tup)
                 if tup not in have:
                     break
             else:
